@@ -20,6 +20,74 @@ def forbid_unsafe():
             "detail": "#![forbid(unsafe_code)] present in src/lib.rs" if ok else "#![forbid(unsafe_code)] missing from src/lib.rs"}
 
 
+_FORBIDDEN = [r"\bstatic\s+(?:mut\s+)?[A-Z_]", r"\bthread_local!", r"\b(?:Ref)?Cell<", r"\bOnceCell\b", r"\bAtomic[A-Z]\w*", r"\bOsRng\b",
+              r"\bthread_rng\b", r"\bInstant\b", r"\bSystemTime\b", r"\blazy_static\b", r"\bMutex<", r"\bRwLock<", r"\bstd::env\b",
+              r"\benv::var\b"]
+
+
+def _strip_guarded(src):
+    """remove `#[cfg(test)]` items and `#[cfg(feature = "fast_verify")]` items (attribute + following item/statement)"""
+    import verus_engine
+    clean = verus_engine._strip_tokens(src)
+    out = []
+    i = 0
+    pat = re.compile(r"#\[cfg\((?:test|feature\s*=\s*\"fast_verify\"|all\(feature\s*=\s*\"fast_verify\"[^\]]*)\)\]")
+    while True:
+        m = pat.search(src, i)
+        if not m:
+            out.append(src[i:])
+            break
+        out.append(src[i:m.start()])
+        # the guarded item ends at the first `;` at depth 0 or at the brace block that closes at depth 0
+        depth = 0
+        j = m.end()
+        end = len(src)
+        while j < len(clean):
+            ch = clean[j]
+            if ch in "([{":
+                depth += 1
+            elif ch in ")]}":
+                depth -= 1
+                if depth == 0 and ch == "}":
+                    end = j + 1
+                    break
+                if depth < 0:
+                    end = j
+                    break
+            elif ch == ";" and depth == 0:
+                end = j + 1
+                break
+            elif ch == "," and depth == 0:
+                end = j + 1
+                break
+            j += 1
+        i = end
+    return "".join(out)
+
+
+def no_ambient_state():
+    """C09 (iv): outside cfg(test) and cfg(feature = "fast_verify") the crate has no statics, interior mutability, RNG, clock or env access"""
+    import verus_engine
+    hits = []
+    for root, _d, files in os.walk(os.path.join(REPO, "src")):
+        for fn in files:
+            if not fn.endswith(".rs"):
+                continue
+            path = os.path.join(root, fn)
+            with open(path) as f:
+                src = f.read()
+            body = verus_engine._strip_tokens(_strip_guarded(src))
+            for rx in _FORBIDDEN:
+                for m in re.finditer(rx, body):
+                    hits.append("%s: %s" % (os.path.relpath(path, REPO), body[max(0, m.start() - 20):m.end() + 20].replace("\n", " ").strip()))
+    ok = not hits
+    return {"name": "no_ambient_state", "ok": ok,
+            "detail": "no static / thread_local / Cell / Atomic / RNG / clock / env access outside cfg(test) and cfg(feature=fast_verify)" if ok
+            else "ambient state or nondeterminism source found: " + "; ".join(hits[:5])}
+
+
 def run(pid):
     out = [forbid_unsafe()]
+    if pid == "C09":
+        out.append(no_ambient_state())
     return out
